@@ -346,6 +346,27 @@ def external_cases_graph(rng, k):
 
         yield "numpy.unravel_index (one flat index)", unravel_case
 
+        npa, kpa = int(rng.integers(0, 9)), int(rng.integers(1, 5))
+
+        def partition_case(npa=npa, kpa=kpa):
+            import toolz
+
+            from ..contracts.parts import m_partition_all
+            from .prims import Prims
+
+            ex, st = _Ex(), State()
+            rng_seq = Prims().m_range(ex, st, [z3.IntVal(npa)], {}, _node())
+            st.assume(rng_seq.length == npa)
+            parts = m_partition_all(ex, st, [z3.IntVal(kpa), rng_seq], {}, _node())
+            real = list(toolz.partition_all(kpa, range(npa)))
+            st.assume(parts.length == len(real))
+            # the reading of the model: run j = seq[j*k : (j+1)*k]
+            if [tuple(r) for r in real] != [tuple(range(j * kpa, min((j + 1) * kpa, npa))) for j in range(len(real))]:
+                return "FAILS", {"n": npa, "k": kpa}
+            return decide(ex, st), {"n": npa, "k": kpa}
+
+        yield "toolz.partition_all", partition_case
+
         n = int(rng.integers(1, 5))
         sums = [int(x) for x in rng.integers(-9, 10, size=n)]
         counts = [int(x) for x in rng.integers(1, 5, size=n)]
